@@ -8,5 +8,6 @@ import glob, json
 print(" ".join(json.load(open(f))["property"] for f in sorted(glob.glob("checks/C[0-9][0-9].json")) if json.load(open(f)).get("claimed", True)))
 PY
 )}
-mkdir -p .build/logs
-echo $ids | tr ' ' '\n' | xargs -P ${JOBS:-4} -I{} bash -c "./check {} --tier $TIER > .build/logs/{}.log 2>&1; echo \"{} exit=\$? \$(grep -c '^VIOLATION' .build/logs/{}.log) violations \$(grep -c '^KNOWN-FINDING' .build/logs/{}.log) known; \$(tail -1 .build/logs/{}.log | sed 's/.*obligations/obligations/')\""
+L=${LOGDIR:-.build/logs}
+mkdir -p $L
+echo $ids | tr ' ' '\n' | xargs -P ${JOBS:-4} -I{} bash -c "./check {} --tier $TIER > $L/{}.log 2>&1; echo \"{} exit=\$? \$(grep -c '^VIOLATION' $L/{}.log) violations \$(grep -c '^KNOWN-FINDING' $L/{}.log) known; \$(tail -1 $L/{}.log | sed 's/.*obligations/obligations/')\""
